@@ -295,6 +295,7 @@ func scenarios() []scenario {
 	}
 	{ // M: mixed on 3x2
 		ops := []op{{kind: "set", x: 0, y: 0, r: 'a', st: 1}, {kind: "set", x: 2, y: 1, r: '世', st: 3}, {kind: "set", x: 1, y: 1, r: '世'}, {kind: "set", x: 2, y: 1, r: 'q', st: 5},
+			{kind: "set", x: 0, y: 0, r: 'a', comb: []rune{0xd800}}, {kind: "set", x: 1, y: 0, r: 'b', comb: []rune{0x0301, 0x110000, 0x07}},
 			{kind: "set", x: 1, y: 0, r: 0x1b}, {kind: "set", x: -1, y: 0, r: 'x'}, {kind: "set", x: 3, y: 9, r: 'x'}, {kind: "set", x: 2, y: 0, r: 0x9b, st: 6},
 			{kind: "fill", r: '.', st: 2}, {kind: "clear"}, {kind: "setstyle", st: 1}, {kind: "cursor", x: 2, y: 1}, {kind: "lock", x: 1, y: 1, w: 1, h: 1, lock: true},
 			{kind: "lock", x: 1, y: 1, w: 1, h: 1, lock: false}, {kind: "resize", w: 2, h: 2}, {kind: "winsize", w: 3, h: 2}, {kind: "corrupt"}, show, sync}
@@ -1042,6 +1043,14 @@ func main() {
 					fmt.Printf("%v\n", scs[si].ops[o])
 					for _, b := range d.tty.Blocks[n:] {
 						fmt.Printf("   wrote %q\n", b)
+					}
+					if os.Getenv("VERIF_DUMP_GRID") != "" {
+						for y := 0; y < d.term.H; y++ {
+							for x := 0; x < d.term.W; x++ {
+								c := d.term.At(x, y)
+								fmt.Printf("   terminal (%d,%d): %q comb %+q wide %d\n", x, y, c.R, c.Comb, c.Wide)
+							}
+						}
 					}
 					if sig != "" {
 						fmt.Printf("VIOLATION property=%s replay=%s\n  %s: %s\n", *prop, *hc.Replay, sig, desc)
